@@ -96,6 +96,7 @@ struct Stats {
 struct Process {              // a simulated child (babysitter + grandchild)
   int pid = 0;
   std::vector<std::string> argv;
+  std::vector<std::string> env;   // the environment handed to the spawn ("KEY=value")
   std::vector<End *> held;    // ends inherited over fork that the parent then closed
   bool exited = false, reaped = false;
   int status = 0;             // wait status
@@ -158,6 +159,7 @@ class Kernel {
   // ---- processes
   std::vector<Process *> procs;
   Process *proc_by_pid(int pid);
+  std::vector<std::string> next_spawn_env;
   std::vector<std::string> next_spawn_argv;   // argv of the spawn in progress (recorded by the spawn wrapper, taken by fork)
   // the scripted babysitter + service process (what dbus-spawn-unix.c's child side would do)
   void proc_settle(Process *p);               // the child closes its copies of the parent's descriptors
